@@ -106,6 +106,9 @@ type Explorer struct {
 	Havoc        map[string]bool
 	RunInit      []string // "pkgpath.init#1"
 	Known        []*KnownFinding
+	// Conc: thread-trace recording mode; every completed path is handed to OnConcPath
+	Conc       bool
+	OnConcPath func(*ConcPath)
 	Verbose      bool
 	Tier         int
 	Seed         int64
@@ -528,13 +531,32 @@ func (ex *Explorer) runPath(c *Ctx, fn *ssa.Function) {
 			}
 		}()
 	}
+	if ex.Conc {
+		c.rec = &concRec{syms: map[string]string{}}
+	}
 	defer func() {
 		r := recover()
 		if r == nil {
 			c.st.Completed++
+			if ex.Conc && ex.OnConcPath != nil {
+				cp := c.FinishConcPath()
+				ex.mu.Lock()
+				ex.OnConcPath(cp)
+				ex.mu.Unlock()
+			}
 			return
 		}
 		if gp, ok := r.(*goPanic); ok {
+			if ex.Conc && ex.OnConcPath != nil {
+				// the thread body itself panics on this path (after these events)
+				cp := c.FinishConcPath()
+				cp.Panic = gp.Msg
+				ex.mu.Lock()
+				ex.OnConcPath(cp)
+				ex.mu.Unlock()
+				c.st.Completed++
+				return
+			}
 			c.st.Panicked++
 			ex.handlePanic(c, gp)
 			return
